@@ -571,3 +571,5 @@ PROPS["C02"]["harness"] = [("WR2", "C02"), ("E2E", "C02")]
 PROPS["C01"]["harness"] = [("E2E", "C01"), ("BIG", "C01")]
 PROPS["C03"]["harness"] = [("RD", "C03"), ("BIG", "C03")]
 PROPS["C07"]["harness"] = list(PROPS["C07"]["harness"]) + [("BIG", "C07")]
+# timestamp parsing is one of the reading entry points of C06: its malformed-string stream is judged by the C18 driver
+PROPS["C06"]["harness"] = list(PROPS["C06"]["harness"]) + [("C18", "C18")]
